@@ -295,6 +295,12 @@ def check(pid, tier='quick', seed=0, shared=None, write_evidence=True, quiet=Fal
             if fn.get('dropped_hints') and fl:
                 inconclusive.append(f'{wname}: {fq} lost the anchor of proof hint(s) {fn["dropped_hints"]} and no longer verifies: undecided')
                 continue
+            if any('post-condition of closure' in f['message'] or 'postcondition of closure' in f['message'] for f in fl):
+                # the contract attached (by ordinal) to a closure no longer describes that closure: the annotation, not
+                # necessarily the behaviour, is off; everything proved in this function assumed it -> undecided
+                inconclusive.append(f'{wname}: a closure of {fq} no longer satisfies the contract the annotation pins on it; '
+                                    f'the function is undecided (its behaviour may or may not have changed)')
+                continue
             if tm is None and not fl:
                 inconclusive.append(f'{wname}: {fq} missing from Verus function breakdown')
                 continue
